@@ -44,3 +44,16 @@ M("c02-read_block-range", "C02", R, "        if start < 0 or start + nsamps > se
   "read_block rejects requests ending at the last sample unless start==0")
 M("c02-cread-count", "C02", F, "            count_read = min(self.sinfo.entries[self.ifile_cur].datalen, count)", "            count_read = min(self.sinfo.entries[self.ifile_cur].datalen // self.bitsinfo.itemsize, count, 7)",
   "cread never reads more than 7 items from one file in one go, then jumps to the next file")
+
+# ---- C04
+H = "sigpyproc/header.py"
+T = "sigpyproc/timeseries.py"
+M("c04-write-unpacked", "C04", F, "            packed.tofile(self.file_obj)", "            arr.tofile(self.file_obj)", "sub-byte data written unpacked")
+M("c04-cwrite-own-dtype", "C04", F, "            arr.astype(self.bitsinfo.dtype, copy=False).tofile(self.file_obj)", "            (arr if arr.dtype.itemsize <= self.bitsinfo.itemsize else arr.astype(self.bitsinfo.dtype)).tofile(self.file_obj)",
+  "narrower in-memory dtypes written at their own width (uint8 -> 16/32-bit file)")
+M("c04-inf-tstart-truncated", "C04", "sigpyproc/params.py", '("tstart", float, "05.15f")', '("tstart", float, "05.8f")')
+M("c04-block-order", "C04", "sigpyproc/block.py", "        out_file.cwrite(self.data.transpose().ravel())", "        out_file.cwrite(self.data.ravel() if self.data.shape[0] == 3 else self.data.transpose().ravel())",
+  "3-channel blocks written channel-major")
+M("c04-spec-real-only", "C04", "sigpyproc/fourierseries.py", "            outfile.cwrite(self.data.view(np.float32))", "            outfile.cwrite(np.ascontiguousarray(self.data).view(np.float32)[: 2 * (self.data.size - (self.data.size > 16))])",
+  "spec writer drops the last bin of long spectra")
+M("c04-dm-dropped", "C04", H, '            "refdm": self.dm,', '            "refdm": round(self.dm, 2),', "DM rounded to 2 decimals on write")
